@@ -38,12 +38,14 @@ ASSUMPTIONS = [
     "each (mesh, singularity set) is run on a fresh mesh object, except in the 'rerun' cases (second cutter on the mesh object a first cutter already ran on), tagged as such",
 ]
 BOUNDS = {
-    "quick": "SURF triangles n<=5 all connected labelled complexes (434) x {lattice,moment curve} x {no detector, border-only, full detector}, sets <=2 + all; "
-             "SURF(6) 28 classes idem; grids 3x3 3x4 4x4 5x5 ('tri'; 'tri2' on 3x3,4x4) x {lattice, perturbed} x {flat:none, flat:border-only, fold, plateau, bump: full detector}, "
-             "sets <=2 + all; all connected manifold sub-complexes of the 3x3 grid and 4x4 with 1 face removed x {flat:none, flat:border, fold:detector}; octahedron, icosahedron, "
-             "tori 3x3 3x4 4x4, 7-vertex torus, torus 3x3 minus 1 face; rerun on the same mesh object for SURF(<=5 classes), grids 3x3/4x4",
-    "thorough": "as quick with sets <=3 + all; SURF(6) classes and their 15 transposition relabelings; grids 3x3..5x5 all six shapes x {tri,tri2}; 4x4 grid with <=2 faces removed "
-                "(sets <=2) ; torus 3x3 minus <=2 faces, torus 3x4 minus 1 face",
+    "quick": "singularity sets: every subset of <=2 vertices + all vertices. SURF triangles n<=5, all 434 connected labelled complexes x {lattice, moment curve} x "
+             "{no detector, border-only detector, full detector}; SURF(6) 27 connected classes idem; grids 3x3 3x4 4x4 5x5 ('tri'; also 'tri2' on 3x3, 4x4) x {lattice, "
+             "perturbed} x {flat: none, flat: border-only, fold / plateau / bump: full detector}; all 71 connected manifold proper sub-complexes of the 3x3 grid and the 4x4 grid "
+             "with 1 face removed x {flat: none, flat: border-only, fold: full detector}; one pair of pants (5x5 minus 2 interior faces); octahedron, icosahedron, tori 3x3 "
+             "3x4 4x4, 7-vertex torus, torus 3x3 minus 1 face; second cutter on an already used mesh object for SURF(<=5) classes, grids 3x3 / 4x4, octahedron (sets <=1)",
+    "thorough": "singularity sets: every subset of <=3 vertices + all vertices (<=2 on the 4x4 grids with 2 faces removed, the pairs of pants and the tori with faces removed). "
+                "As quick, plus: the 15 transposition relabelings of every SURF(6) class; grids 3x3 3x4 3x5 4x4 4x5 5x5 x {tri, tri2}; 4x4 grid with <=2 faces removed; "
+                "4 pairs of pants; torus 3x3 minus <=2 faces, torus 3x4 minus 1 face",
 }
 PINNED = {"surf3": 2, "surf4": 22, "surf5": 410, "surf6c": 28}
 
@@ -220,12 +222,14 @@ def tasks(tier):
         chunk = masks44[i:i + 2]
         add([["holey", 4, 4, "tri", "flat", m] for m in chunk], feats=("none", "border"), smax_=2)
         add([["holey", 4, 4, "tri", "fold", m] for m in chunk], feats=("detect",), smax_=2)
-    if not thorough:      # three border loops (pair of pants) in the quick tier too
-        gp, gf = F.grid(4, 4, "tri")
-        pants = [m for m in _holey_masks(4, 4, "tri", 2) if bin(m).count("1") == 2
-                 and len(F.border_loops(_remove_faces(gp, gf, m)[1])) == 3][:4]
-        add([["holey", 4, 4, "tri", "flat", m] for m in pants[:2]], feats=("none",), smax_=2)
-        add([["holey", 4, 4, "tri", "fold", m] for m in pants[2:]], feats=("detect",), smax_=2)
+    # ---- three border loops (pair of pants): 5x5 grid minus two interior faces that share no vertex
+    gp, gf = F.grid(5, 5, "tri")
+    inner = [i for i, f in enumerate(gf) if all(1 <= v // 5 <= 3 and 1 <= v % 5 <= 3 for v in f)]
+    pants = [(1 << a) | (1 << b) for a, b in itertools.combinations(inner, 2) if not set(gf[a]) & set(gf[b])]
+    pants = [m for m in pants if len(F.border_loops(_remove_faces(gp, gf, m)[1])) == 3 and _connected_manifold(*_remove_faces(gp, gf, m))]
+    for m in pants[:4 if thorough else 1]:
+        add([["holey", 5, 5, "tri", "flat", m]], feats=("none",), smax_=2)
+        add([["holey", 5, 5, "tri", "fold", m]], feats=("detect",), smax_=2)
     if thorough:
         for m in _holey_masks(4, 4, "tri", 1):
             add([["holey", 4, 4, "tri", "flat", m]], feats=("none",), smax_=3, parts=2)
@@ -595,7 +599,10 @@ class Session:
             if same(self.execute(spec, geom, feat, trial, first)):
                 cur = trial
         other = "generic" if geom == "ties" else "ties"
-        gcls = "geom=any" if same(self.execute(spec, other, feat, cur, first)) else f"geom={geom}-only"
+        if res["fcls"] == "feat=crease":
+            gcls = "geom=*"      # with a detector the coordinates decide the feature set: not an independent dimension
+        else:
+            gcls = "geom=any" if same(self.execute(spec, other, feat, cur, first)) else f"geom={geom}-only"
         fcls = "feat=crease" if res["fcls"] == "feat=crease" else "feat=off"      # off = no detector or border-only detector
         cls = f"{T.topo_coarse()}|{T.sing_class(cur)}|{gcls}|{fcls}"
         if first is not None:
@@ -654,7 +661,7 @@ class Session:
         if any(s in T.border_vertices for s in S) and any(s not in T.border_vertices for s in S):
             rep.flag("singularities_on_and_off_border")
         if T.nontrivial(S):
-            rep.case((res["name"], geom, feat, tuple(S), first is not None))
+            rep.case((res["name"], geom, feat, tuple(S), tuple(first) if first is not None else None))
             if len(S) == 2:
                 rep.sample({"mesh": res["name"], "geometry": geom, "detector": feat, "singularities": list(S), "topology": T.topo_class(),
                             "result": res["result"], "cut_edges": sorted(obs["cut_pairs"]) if obs and obs["cut_pairs"] is not None else None})
@@ -674,9 +681,10 @@ def run_task(task, rep: Report):
         rep.count("family:" + spec[0] + (str(spec[1]) if spec[0] == "surf" else ""))
         sets = _subsets(T.n, smax)
         if task.get("rerun"):
-            for S in sets:
-                if len(S) <= 1:
-                    ses.case(spec, geom, feat, S, first=list(range(T.n)))
+            for first in ([0], list(range(T.n))):
+                for S in sets:
+                    if len(S) <= 1:
+                        ses.case(spec, geom, feat, S, first=first)
             continue
         for idx, S in enumerate(sets):
             if idx % parts == part:
